@@ -1310,11 +1310,20 @@ def run(ctx: Ctx) -> Result:
         for _ in range(ctx.n(150, 3000)):
             check_unix_fake(gen_unix_fake(ctx.rng), res, lines, pend)
         flush_unix(lines, pend, res)
+    # --- _RawSocketMixin: registrations, done-callbacks and aclose() (model Stream/RawSock.lean; F13)
+    if focus in (None, "rawsock"):
+        from . import c18_rawsock
+
+        res.merge(c18_rawsock.run(ctx, budget_s=5.0 if ctx.tier == "quick" else 60.0))
     return res
 
 
 def replay(ctx: Ctx, case: Any) -> Result:
     res = Result(rule="replay")
+    if isinstance(case, dict) and case.get("leg") == "rawsock":
+        from . import c18_rawsock
+
+        return c18_rawsock.replay(ctx, case)
     run_case(case, res)
     return res
 
@@ -1324,7 +1333,7 @@ if __name__ == "__main__":
     from .common import check_main
 
     sys.exit(check_main(
-        "C18", run, replay=replay, models=["sock"], level="proof",
+        "C18", run, replay=replay, models=["sock", "rawsock"], level="proof",
         technique_note="Lean 4 theorems over the StreamProtocol/SocketStream LTS (all event lists) and the "
                        "UNIX send/receive loops (all partial-send scripts); event-by-event replay of the real "
                        "classes over a fake transport; oracle on real TCP/UNIX sockets on asyncio and uvloop",
